@@ -148,3 +148,66 @@ pub(crate) mod verif_string {
         kani::cover!(!cross);
     }
 }
+
+// C05 bounded stand-in: format_string as a black box against the specification escaper
+#[cfg(kani)]
+mod verif_format_string {
+    use super::*;
+    use std::mem::MaybeUninit;
+
+    fn fmt_model(_a: std::fmt::Arguments<'_>) -> String { String::new() }
+    fn hexl(n: u8) -> u8 { if n < 10 { b'0' + n } else { b'a' + (n - 10) } }
+    /// RFC 8259 §7 escaper: `"` `\` and C0 controls escaped (short forms for \b \t \n \f \r, \u00XX otherwise),
+    /// everything else verbatim; optional surrounding quotes. Writes into `out`, returns the length.
+    fn spec_escape(s: &[u8], quote: bool, out: &mut [u8; 64]) -> usize {
+        let mut n = 0;
+        if quote { out[n] = b'"'; n += 1; }
+        let mut i = 0;
+        while i < s.len() {
+            let c = s[i];
+            match c {
+                b'"' => { out[n] = b'\\'; out[n + 1] = b'"'; n += 2; }
+                b'\\' => { out[n] = b'\\'; out[n + 1] = b'\\'; n += 2; }
+                0x08 => { out[n] = b'\\'; out[n + 1] = b'b'; n += 2; }
+                0x09 => { out[n] = b'\\'; out[n + 1] = b't'; n += 2; }
+                0x0a => { out[n] = b'\\'; out[n + 1] = b'n'; n += 2; }
+                0x0c => { out[n] = b'\\'; out[n + 1] = b'f'; n += 2; }
+                0x0d => { out[n] = b'\\'; out[n + 1] = b'r'; n += 2; }
+                0..=0x1f => {
+                    out[n] = b'\\'; out[n + 1] = b'u'; out[n + 2] = b'0'; out[n + 3] = b'0';
+                    out[n + 4] = hexl(c >> 4); out[n + 5] = hexl(c & 15); n += 6;
+                }
+                _ => { out[n] = c; n += 1; }
+            }
+            i += 1;
+        }
+        if quote { out[n] = b'"'; n += 1; }
+        n
+    }
+
+    /// every ASCII string of length 0..=2, both `need_quote`: the bytes format_string commits are exactly the
+    /// specification escape and the returned length is its length; every write stays inside the 6n+35 window
+    /// (CBMC pointer checks). Bounded stand-in (string length <= 2: the scalar/tail path; the 32-lane block loop
+    /// needs strings >= 32 bytes, out of CBMC's reach here).
+    #[kani::proof]
+    #[kani::unwind(40)]
+    #[kani::stub(std::arch::x86_64::_mm_max_epu8, crate::util::verif_models::mm_max_epu8)]
+    #[kani::stub(alloc::fmt::format, fmt_model)]
+    fn format_string_short_all() {
+        let bytes: [u8; 2] = kani::any();
+        let len: usize = kani::any();
+        kani::assume(len <= 2);
+        let mut i = 0;
+        while i < 2 { kani::assume(bytes[i] < 0x80); i += 1; }
+        let quote: bool = kani::any();
+        let s = unsafe { std::str::from_utf8_unchecked(&bytes[..len]) };
+        let mut dst = [MaybeUninit::<u8>::uninit(); 6 * 2 + 35];
+        let n = format_string(s, &mut dst[..len * 6 + 32 + 3], quote);
+        let mut want = [0u8; 64];
+        let wn = spec_escape(&bytes[..len], quote, &mut want);
+        assert!(n == wn);
+        let k: usize = kani::any();
+        kani::assume(k < n);
+        assert!(unsafe { dst[k].assume_init() } == want[k]);
+    }
+}
